@@ -523,6 +523,9 @@ func buildCatalog(thorough bool) *catalog {
 			last(m).PkScript[1] = 0x23
 		}}, "wc-unexpected-witness")
 		c.add("wc-without-witness-txs", "at", w0, ph, lab.BOpt{ForceWitCommit: true})
+		c.add("wc-nonce-absent-no-witness-txs", "past", w0, ph, lab.BOpt{ForceWitCommit: true, PreMerkle: func(m *wire.MsgBlock) {
+			m.Transactions[0].TxIn[0].Witness = nil
+		}}, "wc-nonce")
 		c.add("wc-coinbase-witness-only", "past", w0, ph, lab.BOpt{PreMerkle: func(m *wire.MsgBlock) {
 			m.Transactions[0].TxIn[0].Witness = wire.TxWitness{make([]byte, 32)}
 		}}, "wc-unexpected-witness")
@@ -760,6 +763,8 @@ func buildCatalog(thorough bool) *catalog {
 			}
 		}
 		wl := buildStd(specRegtest, maxH-1, nil)
+		// the height push alone is exactly the minimum coinbase script length
+		c.add("bip34-h17-exact-min-length", "at", wl, 16, lab.BOpt{CoinbaseScript: []byte{0x01, 0x11}})
 		for _, e := range encs {
 			tail := []byte{0x04, 0x0b, 0x0b, 0x0b, 0x0b}
 			nm := fmt.Sprintf("bip34-h%d", e.h)
@@ -817,40 +822,87 @@ func buildBip30(full bool) *World {
 	return w
 }
 
-// addRetarget: a mainnet-like set retargeting every 4 blocks.  Blocks 4..7 come
-// 128 s apart (target 512 s), so block 8 must be 4x harder; the candidate at
-// height 8 carries the new bits (valid) or the old ones (invalid), and at
-// height 9 the new bits must persist.
-func addRetarget(c *catalog) {
-	spec := specRetgt
+// buildTimed builds a chain of empty blocks whose timestamps follow the given
+// gaps (gaps[h] = seconds between block h-1 and block h; block 1 is at Now-30d)
+// and whose bits are the ones the reference difficulty rule demands.
+func buildTimed(spec Spec, gaps map[int32]int64, n int32) *World {
 	w := &World{Spec: spec, RP: spec.Ref(), Outs: map[string]out{}}
 	p := w.params()
 	parent := lab.Genesis(p)
 	t := lab.Now.Add(-30 * 24 * time.Hour).Unix()
-	var hdrs []wire.BlockHeader
-	hdrs = append(hdrs, parent.Msg.Header)
-	times := map[int32]int64{}
-	for h := int32(1); h <= 8; h++ {
-		if h >= 5 && h <= 7 {
-			t += 128
-		} else if h > 1 {
-			t += 512
+	for h := int32(1); h <= n; h++ {
+		if h > 1 {
+			g, ok := gaps[h]
+			if !ok {
+				g = spec.Spacing
+			}
+			t += g
 		}
-		times[h] = t
-		bits := spec.Ref().ExpectedBits(hdrs, t)
-		b := lab.Build(p, parent, lab.BOpt{Name: fmt.Sprintf("retarget.B%d", h), Tag: w.nextTag(), Time: time.Unix(t, 0), Bits: bits})
+		bits := w.RP.ExpectedBits(headersOf(parent), t)
+		b := lab.Build(p, parent, lab.BOpt{Name: fmt.Sprintf("%s.B%d", spec.Name, h), Tag: w.nextTag(), Time: time.Unix(t, 0), Bits: bits})
 		w.Blocks = append(w.Blocks, b)
-		hdrs = append(hdrs, b.Msg.Header)
 		parent = b
 	}
-	newBits := w.Blocks[7].Msg.Header.Bits
-	if newBits == regtestPowLimitBits {
-		panic("retarget world did not retarget")
+	return w
+}
+
+func after(b *lab.Blk, sec int64) time.Time { return time.Unix(blkTime(b)+sec, 0) }
+
+// addRetarget: difficulty parameter sets retargeting every 4 blocks (target
+// spacing 512 s).  Blocks 5..7 come 128 s apart, so block 8 must be 4x harder.
+func addRetarget(c *catalog) {
+	fast := map[int32]int64{5: 128, 6: 128, 7: 128}
+	const limit = regtestPowLimitBits
+	{
+		// mainnet-like
+		w := buildTimed(specRetgt, fast, 8)
+		hard := w.at(8).Msg.Header.Bits
+		if hard == limit || w.at(7).Msg.Header.Bits != limit {
+			panic("retarget world did not retarget at height 8")
+		}
+		c.add("retarget-new-bits", "at", w, 7, lab.BOpt{Time: after(w.at(7), 512), Bits: hard})
+		c.add("retarget-new-bits", "past", w, 7, lab.BOpt{Time: after(w.at(7), 512), Bits: limit}, "bits-expected")
+		c.add("retarget-bits-persist", "at", w, 8, lab.BOpt{Time: after(w.at(8), 5000), Bits: hard})
+		c.add("retarget-bits-persist", "past", w, 8, lab.BOpt{Time: after(w.at(8), 5000), Bits: limit}, "bits-expected")
+		c.add("retarget-early", "past", w, 6, lab.BOpt{Time: after(w.at(6), 128), Bits: hard}, "bits-expected")
 	}
-	tm := func(h int32) time.Time { return time.Unix(times[7]+512*int64(h-7), 0) }
-	c.add("retarget-new-bits", "at", w, 7, lab.BOpt{Time: tm(8), Bits: newBits})
-	c.add("retarget-new-bits", "past", w, 7, lab.BOpt{Time: tm(8), Bits: regtestPowLimitBits}, "bits-expected")
-	c.add("retarget-bits-persist", "at", w, 8, lab.BOpt{Time: tm(9), Bits: newBits})
-	c.add("retarget-bits-persist", "past", w, 8, lab.BOpt{Time: tm(9), Bits: regtestPowLimitBits}, "bits-expected")
-	c.add("retarget-early", "past", w, 6, lab.BOpt{Time: time.Unix(times[7], 0), Bits: newBits}, "bits-expected")
+	{
+		// testnet3-like: a block more than 2*512 s after its parent may use the limit
+		gaps := map[int32]int64{5: 128, 6: 128, 7: 128, 9: 1025}
+		w := buildTimed(specMinDiff, gaps, 10)
+		hard := w.at(8).Msg.Header.Bits
+		if hard == limit || w.at(9).Msg.Header.Bits != limit || w.at(10).Msg.Header.Bits != hard {
+			panic("min-difficulty world is not as designed")
+		}
+		c.add("mindiff-gap", "at", w, 8, lab.BOpt{Time: after(w.at(8), 1025), Bits: limit})
+		c.add("mindiff-gap", "past", w, 8, lab.BOpt{Time: after(w.at(8), 1024), Bits: limit}, "bits-expected")
+		c.add("mindiff-gap-real-bits", "at", w, 8, lab.BOpt{Time: after(w.at(8), 1024), Bits: hard})
+		c.add("mindiff-gap-real-bits", "past", w, 8, lab.BOpt{Time: after(w.at(8), 1025), Bits: hard}, "bits-expected")
+		// after a min-difficulty block the real difficulty comes back
+		c.add("mindiff-return", "at", w, 9, lab.BOpt{Time: after(w.at(9), 512), Bits: hard})
+		c.add("mindiff-return", "past", w, 9, lab.BOpt{Time: after(w.at(9), 512), Bits: limit}, "bits-expected")
+	}
+	{
+		// testnet4-like (BIP94)
+		gaps := map[int32]int64{11: 1025}
+		w := buildTimed(specBip94, gaps, 11)
+		hard1 := w.at(8).Msg.Header.Bits
+		if hard1 == limit || w.at(11).Msg.Header.Bits != limit || w.at(10).Msg.Header.Bits != hard1 {
+			panic("bip94 world is not as designed")
+		}
+		c.add("bip94-timewarp", "at", w, 7, lab.BOpt{Time: after(w.at(7), -600), Bits: hard1})
+		c.add("bip94-timewarp", "past", w, 7, lab.BOpt{Time: after(w.at(7), -601), Bits: hard1}, "timewarp")
+		c.add("bip94-timewarp-not-boundary", "at", w, 8, lab.BOpt{Time: after(w.at(8), -601), Bits: hard1})
+		// the retarget at height 12 starts from the bits of the period's FIRST block
+		// (height 8), not from the last one (height 11, a min-difficulty block)
+		hdrs := headersOf(w.at(11))
+		t12 := blkTime(w.at(11)) + 512
+		fromFirst := w.RP.ExpectedBits(hdrs, t12)
+		nonBip94 := refRetarget(hdrs, t12, retargetSpec{Window: 4, Spacing: 512, MinDiff: true})
+		if fromFirst == nonBip94 || fromFirst == hard1 {
+			panic("bip94 retarget does not discriminate")
+		}
+		c.add("bip94-retarget-first-block", "at", w, 11, lab.BOpt{Time: time.Unix(t12, 0), Bits: fromFirst})
+		c.add("bip94-retarget-first-block", "past", w, 11, lab.BOpt{Time: time.Unix(t12, 0), Bits: nonBip94}, "bits-expected")
+	}
 }
